@@ -802,6 +802,45 @@ func (c *Ctx) checkPingerStop(r *Report, m *gwModel) {
 				g := staticCallee(&call.Call)
 				okc = g != nil && fnPkgPath(g) == pkGateway && c.startsGoroutine(g) && call.Block().Dominates(i.Block())
 			}
+			// nothing disarms that timer: it is the only thing that ever stops the pinger, so a Stop (or Reset) on it
+			// leaves a goroutine that pings the broker for ever - the session of a client that later vanishes is
+			// kept alive by the gateway itself
+			if okc {
+				if tv, isVal := i.(ssa.Value); isVal && tv.Referrers() != nil {
+					for _, u := range *tv.Referrers() {
+						st, isStore := u.(*ssa.Store)
+						if !isStore {
+							continue
+						}
+						fa, isFA := st.Addr.(*ssa.FieldAddr)
+						if !isFA {
+							continue
+						}
+						cell := fieldCell(fa)
+						for _, g := range c.repoFuncs("gateway") {
+							allInstrs(g, func(j ssa.Instruction) {
+								cj, ok := j.(ssa.CallInstruction)
+								if !ok {
+									return
+								}
+								nm := calleeName(cj.Common())
+								if nm != "(*time.Timer).Stop" && nm != "(*time.Timer).Reset" {
+									return
+								}
+								if u, ok := cj.Common().Args[0].(*ssa.UnOp); ok {
+									if fa2, ok := u.X.(*ssa.FieldAddr); ok && fieldCell(fa2) == cell {
+										okc = false
+										r.bad("R2", key, c.instrPos(j), "the timer that stops the sleep pinger is itself disarmed here ("+nm+" in "+fnKey(g)+") and nothing else cancels the pinger: it goes on pinging the broker after the sleep has ended, for as long as the session exists - and the session of a vanished client then never ends, because the broker's keep-alive is fed by the gateway")
+									}
+								}
+							})
+						}
+					}
+				}
+				if !okc {
+					return
+				}
+			}
 			if okc {
 				r.ok("R2", key, c.instrPos(i), "timer stops the pinger started by the same DISCONNECT after Duration seconds")
 			} else {
